@@ -75,14 +75,15 @@ def model(L, n, b_ix, e_ix):
     return out
 
 
-def make_cube(rng, L, dim, with_nan):
+def make_cube(rng, L, dim, with_nan, dtype="float64"):
     import xarray as xr
 
     time = pd.date_range("2000-01-01", periods=L, freq="10D")
     data = rng.integers(-50, 50, (L, 2, 3)).astype(np.float64)
-    if with_nan:
+    if with_nan and np.dtype(dtype).kind == "f":
         data[rng.random(data.shape) < 0.25] = np.nan
         data[:, 0, 0] = np.nan
+    data = data.astype(dtype)  # NaN-skipping must not depend on the float width (numpy's `float` is float64 only)
     if dim == "time":
         da = xr.DataArray(data, dims=["time", "y", "x"], coords={"time": time, "y": [0, 1], "x": [10, 20, 30]}, attrs={"nodata": -1})
         axis = time.values
@@ -165,7 +166,8 @@ def run_one(R, da, data, axis, dim, fname, n, begin, end, method, b_ix, e_ix, mu
             if not np.array_equal(g[dim].values, axis[j:i]):
                 R.violation("C19:stamp", f"full window ({j},{i}) carries coordinates {g[dim].values}, expected {axis[j:i]}", case)
                 return
-        if gv.shape != e.shape or not np.allclose(gv, e, rtol=1e-12, atol=0, equal_nan=True):
+        rt = {2: 2e-3, 4: 1e-6}.get(arr.dtype.itemsize, 1e-12) if arr.dtype.kind == "f" else 1e-12
+        if gv.shape != e.shape or not np.allclose(np.asarray(gv, dtype=np.float64), np.asarray(e, dtype=np.float64), rtol=rt, atol=0, equal_nan=True):
             R.violation("C19:value", f"iteragg.{fname} window ({j},{i}) value differs from the NaN-skipping {fname} of its slice", case)
             return
     if R.want_sample() and len(exp) >= 2:
@@ -178,7 +180,9 @@ def shard_exhaustive(spec, R):
     rng = np.random.default_rng([spec["seed"], 19, 1, spec["L"]])
     L = spec["L"]
     for dim, with_nan in (("time", False), ("time", True), ("band", False), ("lag", False), ("depth", True)):
-        da, data, axis = make_cube(rng, L, dim, with_nan)
+        dtype = {"time": ["float64", "float32"][int(with_nan) ^ (L % 2)], "band": "int16", "lag": "float32", "depth": "float16"}[dim]
+        R.count(f"cube_dtype_{dtype}")
+        da, data, axis = make_cube(rng, L, dim, with_nan, dtype)
         labels = [None] + list(range(L))
         for fname in ("sum", "mean", "full"):
             if dim in ("band", "depth") and fname == "mean":
@@ -193,7 +197,7 @@ def shard_exhaustive(spec, R):
                     if dim == "time" and begin is not None and (bi + (ei or 0)) % 2:
                         begin = str(begin)  # string labels as in the tests
                     end = None if ei is None else (pd.Timestamp(axis[ei]) if dim == "time" else axis[ei].item())
-                    case = {"L": L, "n": n, "begin_ix": bi, "end_ix": ei, "fn": fname, "dim": dim, "nan": with_nan}
+                    case = {"L": L, "n": n, "begin_ix": bi, "end_ix": ei, "fn": fname, "dim": dim, "nan": with_nan, "dtype": dtype}
                     run_one(R, da, data, axis, dim, fname, n, begin, end, None, bi, ei, False, case, exhaustive=True)
                     R.count(f"exhaustive_L{L}")
 
@@ -207,7 +211,9 @@ def shard_offaxis(spec, R):
             break
         L = int(rng.integers(1, 13))
         dim = ["band", "time", "time", "lag", "time", "depth"][H.pick(it, 1, 6)]
-        da, data, axis = make_cube(rng, L, dim, bool(H.pick(it, 2, 3) == 0))
+        dtype = ["float64", "float32", "float16", "int16", "int64"][H.pick(it, 4, 5)]
+        R.count(f"cube_dtype_{dtype}")
+        da, data, axis = make_cube(rng, L, dim, bool(H.pick(it, 2, 3) == 0), dtype)
         fname = ["sum", "mean", "full"][H.pick(it, 3, 3)]
         n = int(rng.integers(1, L + 2))
         method = [None, "nearest", "ffill", "bfill"][int(rng.integers(0, 4))]
@@ -240,7 +246,7 @@ def shard_offaxis(spec, R):
         b_ix = None if begin is None else locate(axis, begin, method)
         e_ix = None if end is None else locate(axis, end, method)
         must_raise = (begin is not None and b_ix is None) or (end is not None and e_ix is None)
-        case = {"L": L, "n": n, "begin": str(begin), "end": str(end), "method": method, "fn": fname, "dim": dim, "axis": axis}
+        case = {"L": L, "n": n, "begin": str(begin), "end": str(end), "method": method, "fn": fname, "dim": dim, "axis": axis, "dtype": dtype, "nan": bool(np.isnan(np.asarray(data, dtype=float)).any())}
         R.case(True, L, n, str(begin), str(end), method, fname, dim)
         R.count(f"offaxis_begin_{kb}")
         R.count(f"offaxis_end_{ke}")
@@ -294,7 +300,7 @@ def replay(case, R):
     rng = np.random.default_rng(0)
     L = int(case["L"])
     dim = case["dim"]
-    da, data, axis = make_cube(rng, L, dim, bool(case.get("nan", False)))
+    da, data, axis = make_cube(rng, L, dim, bool(case.get("nan", False)), case.get("dtype", "float64"))
     n = None if case["n"] is None else int(case["n"])
     if "begin_ix" in case:
         bi, ei = case["begin_ix"], case["end_ix"]
